@@ -28,6 +28,7 @@ THEOREMS = [
     "C13_refuted_second_restart",
     "C13_start_picks",
     "C13_restart_at_most_once",
+    "C13_source_shape",
 ]
 LEAN_TARGETS = ["WfProps.C13"]
 EXPLANATION = (
@@ -49,7 +50,7 @@ EXPLANATION = (
     "run's persisted log the real _on_server_start -> context_from_ticks -> replay_ticks_stream -> workflow.run(ctx=) on the real stack "
     "(memory and sqlite stores) is compared with the model's `restart` op on the same tick lines (decision, exit status, result, resumed "
     "runner: buffer, heap, started workers, state), plus context_from_ticks on truncated stores, plus the handler selection on generated "
-    "handler tables. Search: the process is stopped at the instant the k-th tick is persisted (for EVERY k), restarted, and the run must end "
+    "handler tables; the start query, the exit-status table, the shape of replay_ticks_stream (rewind first, one reduce per tick, no early exit), 'on_tick before the command loop' and 'validate before replay' are re-extracted from the sources into GenReplay.lean and pinned by C13_source_shape. Search: the process is stopped at the instant the k-th tick is persisted (for EVERY k), restarted, and the run must end "
     "with the uninterrupted run's status, result and state-store contents; finalized handlers must not enter any step; ticks must be "
     "persisted before any of their commands take effect."
 )
@@ -60,6 +61,8 @@ ASSUMPTIONS = suite.ENGINE_ASSUMPTIONS + [
     "theorems about the replay clock assume retry policies that do not look at elapsed time (TimeFree); generated policies are attempt-based",
     "pending delayed retries / waiter timeouts at the stop point are only classified (C13/stuck_after_pending_timer) — that loss is property C14's subject",
     "error strings are abstracted to their origin (step exception id, timeout, no-state, resume error)",
+    "the model replays with the live configuration (catch_error tables included): true of the code since the repair fix-C13 (context_from_ticks validates first); on the unrepaired tree C13_source_shape and the `restart` correspondence fail",
+    "C13_state_kept assumes the live state's running flag is set (it is after the start tick unless the run ended); theorems are about logs of runs started fresh (logs that span a resume: C13_refuted_second_restart)",
     "postgres / DBOS stores are not run",
 ]
 TRUSTED_EXTRA = [
@@ -554,6 +557,79 @@ def truncation_corr(spec: dict, seed: int, kind: str, out: Outcome, ops: list[st
 
 
 # --------------------------------------------------------------------------
+# replay_ticks_stream + handler_status_from_exit_command directly, incl. synthetic log endings
+
+
+def status_corr(spec: dict, seed: int, out: Outcome, ops: list[str], exp: list[str], owner: list) -> None:
+    """every exit kind through the two functions themselves: real logs and their prefixes, extended by an idle release
+    (not a completion), a cancel, a workflow timeout; replay goes on after an exit tick ('last wins')"""
+    from llama_agents.server._runtime.persistence_runtime import handler_status_from_exit_command
+    from workflows.runtime import control_loop as CL
+    from workflows.runtime.types import ticks as T
+    from workflows.runtime.types.internal_state import BrokerState
+
+    base = restart.run_crash_case(copy.deepcopy(spec), seed, "memory", horizon=HORIZON)
+    out.evaluations += 1
+    full = list(base.ticks)
+    if not full:
+        return
+    variants: list[list] = [full, full + [T.TickIdleRelease()], full + [T.TickCancelRun()]]
+    for k in sorted({1, max(1, len(full) // 2), len(full) - 1}):
+        if 0 < k < len(full):
+            variants += [full[:k] + [T.TickIdleRelease()], full[:k] + [T.TickCancelRun()], full[:k] + [T.TickTimeout(timeout=5.0)],
+                         full[:k] + [T.TickIdleRelease(), full[k]]]
+    live.install_observers()
+    run = live.Run(copy.deepcopy(spec), random.Random(seed))
+    rows: list = []
+
+    async def main(loop: Any) -> None:
+        wf = live.build_workflow(run.spec, run)
+        wf._validate()
+        for v in variants:
+            c0 = len(run.trace.calls)
+
+            async def stream(v: list = v) -> Any:
+                for t in v:
+                    yield t
+
+            try:
+                rep = await CL.replay_ticks_stream(BrokerState.from_workflow(wf), stream())
+            except Exception as e:
+                rows.append((v, run.trace.calls[c0:], "crash", None))
+                continue
+            if rep.exit_command is None:
+                st = "resume"
+            else:
+                m = handler_status_from_exit_command(rep.exit_command)
+                if m is None:
+                    st = "resume"
+                else:
+                    status, result, error = m
+                    st = "%s result %s error %s" % (status, "_" if result is None else enc.pub(result), canon_error(error))
+            rows.append((v, run.trace.calls[c0:], ("_" if rep.exit_command is None else enc.cmd(rep.exit_command)) + " ;; " + enc.state(rep.state), st))
+
+    live._ACTIVE.append(run)
+    try:
+        run_virtual(main, max_time=1_000_000.0)
+    finally:
+        live._ACTIVE.pop()
+    cfgl = cfg_line_of(base)
+    for (v, calls, line, st) in rows:
+        reds = [c for c in calls if c.kind == "reduce"]
+        rw = next((c for c in calls if c.kind == "rewind"), None)
+        now0 = rw.now if rw is not None else 1000.0
+        now = reds[0].now if reds else now0
+        ops += [cfgl, "replay %s %s %s %s" % (enc.num(now0), enc.num(now), _policy_tokens(reds), enc.lst([enc.tick(t) for t in v]))]
+        exp += ["ok", line]
+        if st is not None:
+            ops.append("status")
+            exp.append(st)
+        owner += [{"status": {"spec": spec, "seed": seed, "n": len(v)}}] * (3 if st is not None else 2)
+        out.count("K:status:" + (st.split(" ")[0] if st else "crash"))
+    out.traces_validated += len(rows)
+
+
+# --------------------------------------------------------------------------
 # which handlers _on_server_start acts on
 
 
@@ -764,6 +840,9 @@ def run(env: Env) -> Outcome:
         truncation_corr(det_spec(rng), rng.randrange(1 << 30), "sqlite" if i % 2 else "memory", out, ops, exp, owner)
     for name, spec in EDGE_SPECS[1:4]:
         truncation_corr(spec, 11, "memory", out, ops, exp, owner)
+    # ---- the two functions themselves on every exit kind
+    for name, spec in EDGE_SPECS:
+        status_corr(spec, 11, out, ops, exp, owner)
     # ---- handler selection
     pick_corr(env, out, env.budget(8, 150), ops, exp, owner)
     # ---- malformed lines
